@@ -1,6 +1,6 @@
 import SleapVerif.Model.Pafs
 import SleapVerif.Lemmas.Transc
-import SleapVerif.Props.C01
+import SleapVerif.Lemmas.GridTab
 import Mathlib.Tactic.Linarith
 import Mathlib.Tactic.Positivity
 import Mathlib.Tactic.Ring
@@ -25,7 +25,7 @@ set_option linter.unusedSectionVars false
 namespace SleapVerif.C05
 open SleapVerif SleapVerif.Pafs SleapVerif.Grid SleapVerif.Scalar
 open SleapVerif.Confmaps (nodeOf)
-open SleapVerif.C01 (gp gridVec_length gridVec_getElem cellAt?_tabulate grid_point_lt)
+open SleapVerif.GridTab (gp gridVec_length gridVec_getElem cellAt?_tabulate grid_point_lt)
 
 variable {R : Type} [Field R] [LinearOrder R] [IsStrictOrderedRing R]
 
@@ -412,7 +412,7 @@ theorem paf_layout (exp sqrt : R → R) (σ : R) (s H W : Nat) (edges : List (Na
     simp [gridVec_getElem, gp]
 
 /-- **paf_shape**: `2·n_edges` channels of `⌈H/s⌉ × ⌈W/s⌉` (that is `H/s × W/s` when `s ∣ H, W`:
-`C01.gridLen_of_dvd`). -/
+`GridTab.gridLen_of_dvd`). -/
 theorem paf_shape (exp sqrt : R → R) (σ : R) (s H W : Nat) (edges : List (Nat × Nat))
     (animals : List (List (Option (R × R)))) :
     (pafs exp sqrt Nat.cast σ s H W edges animals).length = 2 * edges.length ∧
@@ -440,6 +440,69 @@ theorem paf_shape (exp sqrt : R → R) (σ : R) (s H W : Nat) (edges : List (Nat
     simp only [List.mem_cons, List.mem_nil_iff, or_false] at hmem
     rcases hmem with rfl | rfl <;> exact this _
 
+/-! ## composed statements -/
+
+/-- **paf_weight_antitone_capstone** (edges ≥ 1 px): "non-increasing with distance from the segment"
+stated on two points: if `p` is at least as close to the segment as `q` (every segment point is at
+least as far from `q` as some segment point is from `p`), then `w(q) ≤ w(p)`. -/
+theorem paf_weight_antitone_capstone (T : Transc R) (σ : R) (hσ : 0 < σ) (sx sy tx ty px py qx qy : R)
+    (hL : 1 ≤ len2 (tx - sx) (ty - sy))
+    (h : ∀ u, 0 ≤ u → u ≤ 1 → ∃ v, 0 ≤ v ∧ v ≤ 1 ∧
+        (sx + v * (tx - sx) - px) ^ 2 + (sy + v * (ty - sy) - py) ^ 2
+          ≤ (sx + u * (tx - sx) - qx) ^ 2 + (sy + u * (ty - sy) - qy) ^ 2) :
+    edgeWeight T.exp σ sx sy tx ty qx qy ≤ edgeWeight T.exp σ sx sy tx ty px py := by
+  unfold edgeWeight
+  apply paf_weight_antitone_in_distance T σ hσ
+  · unfold distanceToEdge; exact distSq_nonneg _ _ _ _
+  · obtain ⟨hq0, hq1, hq⟩ := paf_foot_on_segment qx qy sx sy tx ty
+    obtain ⟨v, hv0, hv1, hv⟩ := h _ hq0 hq1
+    have hp := paf_D_is_sqdist_to_segment (px - sx) (py - sy) (tx - sx) (ty - sy) hL v hv0 hv1
+    unfold distanceToEdge at hq ⊢
+    rw [hq]
+    refine le_trans hp (le_trans (le_of_eq ?_) hv)
+    ring
+
+/-- **paf_output_on_segment** (output level): one kept animal, edge `e` of length ≥ 1 px, grid point
+`(j·s, i·s)` on the segment ⇒ channels `2e`, `2e+1` of `generate_pafs` at `(i, j)` hold exactly the
+unit vector from source to destination. -/
+theorem paf_output_on_segment (T : Transc R) (σ : R) (hσ : 0 < σ) (s H W : Nat) (edges : List (Nat × Nat))
+    (a : List (Option (R × R))) (e i j : Nat) (he : e < edges.length) (hi : i < gridLen H s) (hj : j < gridLen W s)
+    (hk : kept (Nat.cast : Nat → R) s H W a = true)
+    (sx sy tx ty u : R)
+    (hs : nodeOf a (edges.getD e (0,0)).1 = some (sx, sy)) (ht : nodeOf a (edges.getD e (0,0)).2 = some (tx, ty))
+    (hL : 1 ≤ len2 (tx - sx) (ty - sy)) (hu0 : 0 ≤ u) (hu1 : u ≤ 1)
+    (hx : gp s j = sx + u * (tx - sx)) (hy : gp s i = sy + u * (ty - sy)) :
+    ∃ ux uy : R, ux * ux + uy * uy = 1 ∧ 0 < ux * (tx - sx) + uy * (ty - sy) ∧ ux * (ty - sy) - uy * (tx - sx) = 0 ∧
+      cellAt3? (pafs T.exp T.sqrt Nat.cast σ s H W edges [a]) (2 * e) i j = some ux ∧
+      cellAt3? (pafs T.exp T.sqrt Nat.cast σ s H W edges [a]) (2 * e + 1) i j = some uy := by
+  have hd : ¬ (tx - sx = 0 ∧ ty - sy = 0) := by
+    rintro ⟨h1, h2⟩; rw [h1, h2] at hL; simp [len2] at hL; linarith
+  obtain ⟨ux, uy, w, hc, hw, _, _, hn, hpar, hdot⟩ := paf_direction T σ hσ sx sy tx ty (gp s j) (gp s i) hd
+  have hw1 : w = 1 := by
+    rw [hw, hx, hy]; exact paf_weight_one_on_segment_partial T σ hσ sx sy tx ty u hL hu0 hu1
+  obtain ⟨l1, l2⟩ := paf_layout T.exp T.sqrt σ s H W edges [a] e i j he hi hj
+  have hed : edgeData s H W edges [a] e = [(some (sx, sy), some (tx, ty))] := by
+    have hs' := hs; have ht' := ht
+    rw [List.getD_eq_getElem?_getD] at hs' ht'
+    simp [edgeData, hk, hs', ht']
+  rw [hed, paf_single] at l1 l2
+  simp only at l1 l2
+  rw [hc, hw1] at l1 l2
+  exact ⟨ux, uy, hn, hdot, hpar, by simpa using l1, by simpa using l2⟩
+
+/-- **paf_output_additive** (output level): the cell of `generate_pafs` on `as ++ bs` is the sum of
+the cells on `as` and on `bs` (the filter acts per animal). -/
+theorem paf_output_additive (exp sqrt : R → R) (σ : R) (s H W : Nat) (edges : List (Nat × Nat))
+    (as bs : List (List (Option (R × R)))) (e : Nat) (gx gy : R) :
+    multiCell exp sqrt σ (edgeData s H W edges (as ++ bs) e) gx gy
+      = ((multiCell exp sqrt σ (edgeData s H W edges as e) gx gy).1
+            + (multiCell exp sqrt σ (edgeData s H W edges bs e) gx gy).1,
+         (multiCell exp sqrt σ (edgeData s H W edges as e) gx gy).2
+            + (multiCell exp sqrt σ (edgeData s H W edges bs e) gx gy).2) := by
+  have : edgeData s H W edges (as ++ bs) e = edgeData s H W edges as e ++ edgeData s H W edges bs e := by
+    unfold edgeData; rw [List.filter_append, List.map_append]
+  rw [this, paf_additive]
+
 /-! ## non-vacuity -/
 
 example : 0 < weight realTransc.exp (3/2 : ℝ) (5 : ℝ) ∧ weight realTransc.exp (3/2 : ℝ) 5 ≤ 1 :=
@@ -455,5 +518,39 @@ example : kept (Nat.cast : Nat → ℝ) 4 16 16 [some (5, 8), none] = true :=
         rw [this]; norm_num) (by norm_num)
     (by have : gridLast 16 4 = 12 := by decide
         rw [this]; norm_num)
+
+example : kept (Nat.cast : Nat → ℝ) 4 16 16 [some (17, 3), some (-2, 5), none] = false :=
+  kept_false_of_outside 4 16 16 (by norm_num) _ (by
+    intro kp hkp x y h
+    simp only [List.mem_cons, List.mem_nil_iff, or_false] at hkp
+    rcases hkp with rfl | rfl | rfl
+    · cases h; right; left; norm_num
+    · cases h; left; norm_num
+    · cases h)
+
+example : ∃ ux uy w, pafCell realTransc.exp realTransc.sqrt (3/2 : ℝ) (some (1, 1)) (some (4, 5)) 2 2 = (w * ux, w * uy)
+    ∧ 0 < w ∧ ux * ux + uy * uy = 1 := by
+  obtain ⟨ux, uy, w, h1, _, h3, _, h5, _, _⟩ := paf_direction realTransc (3/2) (by norm_num) 1 1 4 5 2 2 (by norm_num)
+  exact ⟨ux, uy, w, h1, h3, h5⟩
+
+-- paf_D_is_sqdist_to_segment / paf_foot_on_segment: edge (1,1)→(4,5) (|d|² = 25 ≥ 1), any point, u = 1/3
+example : distSq (2 - 1 : ℝ) (7 - 1) (4 - 1) (5 - 1) ≤ (1/3 * (4 - 1) - (2 - 1)) ^ 2 + (1/3 * (5 - 1) - (7 - 1)) ^ 2 :=
+  paf_D_is_sqdist_to_segment _ _ _ _ (by unfold len2; norm_num) (1/3) (by norm_num) (by norm_num)
+
+-- paf_layout / paf_shape / paf_zero_filtered hypotheses: e < |edges|, i,j inside the ⌈8/2⌉ = 4 grid
+example : (0 : Nat) < [((0 : Nat), (1 : Nat))].length ∧ 3 < gridLen 8 2 ∧ gridLen 8 2 = 4 := by decide
+
+-- paf_output_on_segment: animal (2,2)→(6,2) on an 8×8 image, stride 2 (open box (0,6)²), grid point (4,2) = s + ½·d
+example : ∃ ux uy : ℝ, ux * ux + uy * uy = 1 ∧
+    cellAt3? (pafs realTransc.exp realTransc.sqrt Nat.cast (1 : ℝ) 2 8 8 [(0, 1)] [[some (2, 2), some (6, 2)]]) 0 1 2 = some ux ∧
+    cellAt3? (pafs realTransc.exp realTransc.sqrt Nat.cast (1 : ℝ) 2 8 8 [(0, 1)] [[some (2, 2), some (6, 2)]]) 1 1 2 = some uy := by
+  have hl : gridLast 8 2 = 6 := by decide
+  have hg : gridLen 8 2 = 4 := by decide
+  obtain ⟨ux, uy, h1, _, _, h4, h5⟩ := paf_output_on_segment realTransc (1 : ℝ) one_pos 2 8 8 [(0, 1)]
+    [some (2, 2), some (6, 2)] 0 1 2 (by simp) (by rw [hg]; norm_num) (by rw [hg]; norm_num)
+    (paf_kept_partial 2 8 8 _ 2 2 (by simp) (by norm_num) (by rw [hl]; norm_num) (by norm_num) (by rw [hl]; norm_num))
+    2 2 6 2 (1/2) (by simp [nodeOf]) (by simp [nodeOf]) (by unfold len2; norm_num) (by norm_num) (by norm_num)
+    (by unfold gp; norm_num) (by unfold gp; norm_num)
+  exact ⟨ux, uy, h1, by simpa using h4, by simpa using h5⟩
 
 end SleapVerif.C05
